@@ -7,10 +7,13 @@
    C12_locks_self_conflict_blocks : a trace that is NOT self_ok reaches an acquisition that can never succeed: a blocking one
                                     hangs for ever, a try one can only fail (spurious lock-conflict error).
    C12_locks_criterion_complete   : so self_ok is exactly the property (iff) for balanced traces — stated as the two directions.
+   UNIVERSAL part: C12_locks_footprint_classes_run — for EVERY world and any sequence of calls of the footprint classes of
+   Conc/Footprint.v (lock trace = a function of operation and world, tied to the implementation event by event on every run; all
+   22 classes incl. path) the single thread runs to completion with successful acquisitions only and is never stuck.
    [P]artial tie: the premise self_ok/balanced is evaluated by vm_compute on the traces the implementation produces through
    hook H2 for the enumerated operation instances (checks/locks_common.py); it is not established for all states. *)
 From Coq Require Import List NArith Bool.
-From AV Require Import Conc.RwLock Conc.SelfConflict.
+From AV Require Import Tree.Heap Conc.RwLock Conc.SelfConflict Conc.Footprint Conc.FootprintProofs.
 Import ListNotations.
 
 Theorem C12_locks_single_thread_runs : forall t,
@@ -29,3 +32,8 @@ Theorem C12_locks_self_conflict_blocks : forall t,
       (b = true -> stuck c /\ forall c', ~ step c c') /\
       (b = false -> forall t' o c', lstep c t' o c' -> o = Fail /\ c' = init [[]]).
 Proof. exact single_thread_conflict. Qed.
+
+Theorem C12_locks_footprint_classes_run : forall cf fuel w os,
+    sreachable (init [thread_trace cf fuel w os]) (init [[]]) /\
+    forall c, sreachable (init [thread_trace cf fuel w os]) c -> ~ stuck c.
+Proof. exact single_thread_footprint_classes. Qed.
